@@ -709,6 +709,40 @@ def _le_len(cx, x, s):
             return True
     if _is_len_of(x, s):
         return True
+    # s is a tail view s0[a..]: its length is len(s0) - a, so `x <= len(s0) - a` is the comparison to look for
+    tv = _tail_view(s)
+    if tv is not None:
+        s0, a = tv
+        for rel, p, q, pts, gd in cx.rels:
+            if q is None or rel not in ('<', '<=') or not same(p, x):
+                continue
+            qq = _peel(q)
+            if isinstance(qq, tuple) and qq[0] == 'bin' and qq[1] == 'Sub' and same(qq[3], a) and _is_len_of(qq[2], s0) and cx.stable_len(pts, gd, x, a) and cx.stable(a, pts, gd):
+                return True
+    return False
+
+
+def _tail_view(s):
+    """(s0, a) when s denotes s0[a..] (index / index_mut by RangeFrom, through reborrows and deref calls)"""
+    s = _peel(s)
+    while isinstance(s, tuple) and s and s[0] in ('ref', 'deref'):
+        s = _peel(s[1])
+    if isinstance(s, tuple) and s and s[0] == 'call' and (s[1] or '').split('::')[-1] in ('index', 'index_mut') and len(s[2]) == 2:
+        rp = _range_parts(s[2][1])
+        if rp and rp[0] == 'from':
+            return s[2][0], rp[1]
+    return None
+
+
+def _sub_evaluated(cx, a, s):
+    """a dominating comparison evaluated `len(s) - a` (a checked subtraction that did not fail): a <= len(s)"""
+    for rel, p, q, pts, gd in cx.rels:
+        for side in (p, q):
+            if side is None:
+                continue
+            qq = _peel(side)
+            if isinstance(qq, tuple) and qq[0] == 'bin' and qq[1] == 'Sub' and same(qq[3], a) and _is_len_of(qq[2], s) and cx.stable(a, pts, gd) and cx.stable_len(pts, gd, a):
+                return True
     return False
 
 
@@ -832,6 +866,8 @@ def discharge(site, delegated):
                     return ('nonempty', '[1..] after a dominating `!is_empty()`')
                 if rp[0] == 'from' and fold(rp[1]) == 0:
                     return ('const', '[0..] cannot fail')
+                if rp[0] == 'from' and _sub_evaluated(cx, rp[1], s):
+                    return ('guard-sub', '[a..] after `len - a` was evaluated by a dominating guard without underflow')
                 if rp[0] == 'range':
                     a, e2 = rp[1], _peel(rp[2])
                     if isinstance(e2, tuple) and e2[0] == 'bin' and e2[1] == 'Add' and same(e2[2], a):
@@ -842,7 +878,16 @@ def discharge(site, delegated):
                                 if isinstance(qq, tuple) and qq[0] == 'bin' and qq[1] == 'Sub' and same(qq[3], a) and _is_len_of(qq[2], s) and cx.stable_len(pts, gd, a, b2):
                                     if cx.stable(a, pts, gd):
                                         return ('guard-sub', '[a..a+b] under a dominating `b <= len - a`')
+        if name in ('split_at', 'split_at_mut') and len(ex) == 2 and _le_len(cx, ex[1], ex[0]):
+            return ('guard-len', 'split_at(n) under a dominating `n <= len`')
         if name == 'copy_from_slice' and len(ex) == 2:
+            d0, s0 = _peel(ex[0]), _peel(ex[1])
+            while isinstance(s0, tuple) and s0 and s0[0] in ('ref', 'deref'):
+                s0 = _peel(s0[1])
+            # source is s.split_at(dst.len()).0
+            if isinstance(s0, tuple) and s0 and s0[0] == 'field' and s0[2] == 0 and isinstance(_peel(s0[1]), tuple) and _peel(s0[1])[0] == 'call' and \
+                    (_peel(s0[1])[1] or '').split('::')[-1] in ('split_at', 'split_at_mut') and len(_peel(s0[1])[2]) == 2 and _is_len_of(_peel(s0[1])[2][1], d0):
+                return ('equal-len', 'source is s.split_at(dst.len()).0: both slices have dst.len() elements')
             dst, src = _peel(ex[0]), _peel(ex[1])
             # src = s[..len(dst)]  or  s[a..a+len(dst)]
             ss = src
@@ -866,6 +911,9 @@ def discharge(site, delegated):
                 return r
             if type_level_guard(site):
                 return ('type-level', 'assertion on a type-level condition (sizes / constants): independent of the input')
+            r = _none_of_nonempty(site, cx)
+            if r:
+                return r
     return None
 
 
@@ -903,6 +951,36 @@ def _array_len_of(e):
     return None
 
 
+def _none_of_nonempty(site, cx):
+    """a panic in the `None` arm of `s.split_first()` / `first()` / `last()` (and _mut forms) after a dominating
+    `!s.is_empty()`: the accessor returns Some for a non-empty slice, the arm is unreachable"""
+    body = site.body
+    b = site.bi
+    seen = set()
+    for _ in range(8):
+        ps = body.pred[b]
+        if len(ps) != 1 or b in seen:
+            return None
+        seen.add(b)
+        d = ps[0]
+        t = body.blocks[d]['term']
+        if t['k'] == 'switch':
+            vals = [v for v, tgt in t['ts'] if tgt == b]
+            e = _peel(body.expr_operand(t['d']))
+            if vals == [0] and isinstance(e, tuple) and e[0] == 'discr':
+                c = _peel(e[1])
+                if isinstance(c, tuple) and c[0] == 'call' and (c[1] or '').split('::')[-1] in ('split_first_mut', 'split_first', 'first', 'first_mut', 'last', 'last_mut', 'split_last', 'split_last_mut') and len(c[2]) == 1:
+                    if cx.nonempty(c[2][0]):
+                        return ('nonempty', 'None arm of %s() after a dominating `!is_empty()`' % (c[1] or '').split('::')[-1])
+            return None
+        if t['k'] not in ('goto', 'call'):
+            return None
+        if t['k'] == 'call' and not ((t['fn'].get('f') or '').startswith('core::fmt::') or (t['fn'].get('f') or '').startswith('core::panicking::')):
+            return None
+        b = d
+    return None
+
+
 def _unreachable_by_rem(site):
     """a panic in the catch-all arm of a switch on `x % k` whose arms 0..k-1 are all present"""
     body = site.body
@@ -918,11 +996,15 @@ def _unreachable_by_rem(site):
         t = body.blocks[d]['term']
         if t['k'] == 'switch' and t['otherwise'] == b:
             e = _peel(body.expr_operand(t['d']))
+            vals = {v for v, _ in t['ts']}
             if isinstance(e, tuple) and e[0] == 'bin' and e[1] == 'Rem':
                 kk = fold(e[3])
-                vals = {v for v, _ in t['ts']}
                 if kk and vals >= set(range(kk)):
                     return ('exhaustive-rem', 'catch-all arm of a match on x %% %d whose arms 0..%d are present' % (kk, kk - 1))
+            # any scrutinee whose value range (mask, shift, remainder, narrow type) is covered by the explicit arms
+            rg = interval(e)
+            if rg and rg[0] is not None and rg[1] is not None and 0 <= rg[1] - rg[0] <= 512 and vals >= set(range(rg[0], rg[1] + 1)):
+                return ('exhaustive-range', 'catch-all arm of a match whose scrutinee lies in [%d, %d] and whose arms cover that range' % rg)
             return None
         if t['k'] != 'goto':
             return None
